@@ -1,4 +1,5 @@
 import DSymVerif.Driver.SymIO
+import DSymVerif.Driver.C09View
 import DSymVerif.Model.FundGroup
 import DSymVerif.Spec.C09
 
@@ -7,7 +8,7 @@ open DSymVerif DSymVerif.Proto DSymVerif.DS
 namespace DrvC09
 open DSymVerif.SpecC02 DSymVerif.SpecC09
 
-def specG (s : RawSym) : G := { size := s.size, dim := s.dim, op := s.opAt, v := s.vAt }
+open DSymVerif.DrvC09View (specG inDomain)
 
 /-! ### the canonical textual layout of a `FundamentalGroup` value (harness: `enc_fg`) -/
 
@@ -154,6 +155,7 @@ def handler : Handler := fun op inp out =>
           | _ => "PANIC")
         | _ => "PANIC"
       if !validSymbol g then (model, fail "input-is-not-a-connected-complete-symbol") else
+      if !inDomain s then (model, fail "input-outside-the-domain-of-the-theorems") else
       match run P.fgOut out with
       | some o => (model, stages (fgClauses g kmax tclimit o))
       | none => (model, fail "no-presentation-returned")
@@ -168,6 +170,7 @@ def handler : Handler := fun op inp out =>
           | _ => "PANIC")
         | _ => "PANIC"
       if !validSymbol g then (model, fail "input-is-not-a-connected-complete-symbol") else
+      if !inDomain s then (model, fail "input-outside-the-domain-of-the-theorems") else
       match run P.edgeList out with
       | some es =>
         -- chambers joined by the reported inner facets
